@@ -41,9 +41,18 @@ class UnitResult:
         self.models_used = set()
         self.time = 0.0
         self.error = None
+        self.live = 0          # paths that reached the end of the unit with a satisfiable path condition
+        self.vacuous = 0
 
 
 MAX_PATHS = 4000
+
+
+def _pc_sat(E):
+    s = z3.Solver()
+    s.set('timeout', 5000)
+    s.add(*E.pc)
+    return s.check() != z3.unsat
 
 
 def run_unit(E, u, debug_flag=True):
@@ -66,6 +75,12 @@ def run_unit(E, u, debug_flag=True):
         E.reset(prefix)
         try:
             u.fn(E)
+            # vacuity guard: a path that ran to the end with a contradictory path condition proves nothing
+            n_before = len(E.obligations)
+            if E.feasible(z3.BoolVal(True), full=True) if False else _pc_sat(E):
+                res.live += 1
+            else:
+                res.vacuous += 1
         except PathEnd:
             pass
         except Unsupported as ex:
